@@ -40,9 +40,9 @@ def fragment():
     body = fn.body
     start = end = None
     for k, st in enumerate(body):
-        if isinstance(st, ast.If) and isinstance(st.test, ast.UnaryOp) and "isinstance(fully_diagonalize, dict)" in ast.unparse(st.test) \
-                and any(isinstance(n, ast.Name) and n.id == "commuting_blocks" for n in ast.walk(st)):
-            start = k
+        if start is None and isinstance(st, ast.If) and "isinstance(fully_diagonalize, dict)" in ast.unparse(st.test) \
+                and any(isinstance(n, ast.Name) and n.id == "commuting_blocks" and isinstance(n.ctx, ast.Store) for n in ast.walk(st)):
+            start = k      # the statement that initialises `commuting_blocks` (either polarity of the isinstance test)
         if isinstance(st, ast.If) and ast.unparse(st.test) == "not fully_diagonalize" and start is not None:
             end = k
     if start is None or end is None:
